@@ -73,4 +73,5 @@ func propertyIDs() []string {
 
 func init() {
 	register(propC15{})
+	register(propC14{})
 }
